@@ -378,6 +378,31 @@ Proof.
 Qed.
 Print Assumptions C13_source_key_match_iff.
 
+(* range_match (the bracket classes of glob_match), regenerated from the source on this run and executed by the interpreter of
+   IdxLang.v: called on a pattern at the position just after a '[' (whatever precedes it), the source function returns -1
+   exactly when the model's range_match says "no match" and otherwise the index at which the model's remaining suffix
+   starts.  The first tie through a `while True:` loop with break; the fuel 38 + |p| always suffices. *)
+From Coq Require Import ZArith.
+From PyCasbin Require IdxLang IdxTie.
+From PyCasbinGen Require RangeMatchGen.
+
+Theorem C13_source_range_match : forall pre p t,
+  IdxLang.xrun (38 + length p) RangeMatchGen.range_match_params RangeMatchGen.range_match_locals RangeMatchGen.range_match_gen
+       [IdxLang.XS (pre ++ p); IdxLang.XZ (Z.of_nat (length pre)); IdxLang.XS [t]] =
+  IdxTie.range_match_result (length (pre ++ p)) (range_match p t).
+Proof. exact IdxTie.tie_range_match. Qed.
+Print Assumptions C13_source_range_match.
+
+Example C13_source_range_example :
+  (* "[a-c]x" at index 1 on 'b' -> 5 ; on 'd' -> -1 ; "[!a]" at 1 on 'b' -> 4 *)
+  IdxLang.xrun 60 RangeMatchGen.range_match_params RangeMatchGen.range_match_locals RangeMatchGen.range_match_gen
+       [IdxLang.XS [91;97;45;99;93;120]; IdxLang.XZ 1; IdxLang.XS [98]] = Ok (IdxLang.XZ 5)
+  /\ IdxLang.xrun 60 RangeMatchGen.range_match_params RangeMatchGen.range_match_locals RangeMatchGen.range_match_gen
+       [IdxLang.XS [91;97;45;99;93;120]; IdxLang.XZ 1; IdxLang.XS [100]] = Ok (IdxLang.XZ (-1))
+  /\ IdxLang.xrun 60 RangeMatchGen.range_match_params RangeMatchGen.range_match_locals RangeMatchGen.range_match_gen
+       [IdxLang.XS [91;33;97;93]; IdxLang.XZ 1; IdxLang.XS [98]] = Ok (IdxLang.XZ 4).
+Proof. vm_compute. repeat split; reflexivity. Qed.
+
 Example C13_source_example :
   StrTie.run_key_match [47;102;111;111;47;98;97;114] [47;102;111;111;47;42] = Ok (StrLang.SVB true)
   /\ StrTie.run_key_match [47;102;111] [47;102;111;111;47;42] = Ok (StrLang.SVB false)
